@@ -617,7 +617,7 @@ var vfC08Actor, vfC08Inbox, vfC08Outbox string
 
 // vfRoles: ids of different roles are different; within a role they are free to alias.
 func vfRoles(groups ...[]string) {
-	groups = append(groups, []string{vfC08Actor}, []string{vfC08Inbox}, []string{vfC08Outbox}, []string{"https://www.w3.org/ns/activitystreams#Public"},
+	groups = append(groups, []string{vfC08Actor}, []string{vfC08Inbox}, []string{vfC08Outbox}, []string{"https://www.w3.org/ns/activitystreams#Public"}, []string{"as:Public"}, []string{"Public"},
 		[]string{vfUFIRI("followersOf", vfC08Actor)}, []string{vfUFIRI("followingOf", vfC08Actor)}, []string{vfUFIRI("likedOf", vfC08Actor)})
 	// contract of NewID: fresh ids
 	var fresh []string
